@@ -175,7 +175,7 @@ def run_scenarios(scenarios, mm="n", harness=None, keep_root=None):
         d = dict(parse_ordered(l))
         run["model"] = dict(ok=d.get("ok"), fs={unhexs(k): unhexs(v) for k, v in (kv.split("=") for kv in d.get("fs", "-").split(",") if "=" in kv)},
                             writes=[unhexs(x) for x in d.get("writes", "-").split(",") if x != "-"] if d.get("writes", "-") != "-" else [],
-                            out=unhexs(d.get("out", "-")), reads=[unhexs(x) for x in d.get("reads", "-").split(",")] if d.get("reads", "-") != "-" else [], raw=l[:200])
+                            out=unhexs(d.get("out", "-")), reads=[unhexs(x) for x in d.get("reads", "-").split(",")] if d.get("reads", "-") != "-" else [], hyp=d.get("hyp"), raw=l[:200])
     return results
 
 def snap_files(snap):
